@@ -364,6 +364,13 @@ class Check:
         for j in getattr(self, 'jobs', []):
             for (label, why) in (j.result or {}).get('unconfirmed', []):
                 self.say('UNCONFIRMED counterexample (not reported as violation; encoding or stub discrepancy to investigate): job=%s failing="%s": %s' % (j.name, label, why))
+        seen_kf = set()
+        dedup = []
+        for l in known_lines:
+            key = l.split(' [')[0]
+            if key in seen_kf: continue
+            seen_kf.add(key); dedup.append(l)
+        known_lines[:] = dedup
         for l in known_lines:
             self.say(l)
         for n in notes:
